@@ -28,6 +28,8 @@ def build_tree(rng, with_all):
     add("t/short.gz", b"\x1f\x8b")
     add("t/sub/dirty.a", fc.ar([("x.o/", 1700000000, 7, 8, 100644, b"abc")]))
     add("t/sub/clean.a", fc.ar([("x.o/", 5, 0, 0, 100644, b"ab")]))
+    # a path longer than a kilobyte (far below PATH_MAX), with modifiable files before and after it in any order of the walk
+    add("t/sub/long/" + "/".join("d%d-" % k + "z" * 180 for k in range(6)) + "/deep-dirty.gz", fc.gz(1700000003))
     add("t/sub/trunc.a", fc.ar([("x.o/", 1700000000, 7, 8, 100644, b"abcdef")])[:-3])
     add("t/hl1.gz", fc.gz(1700000002), links=["t/sub/hl2.gz", "t/hl3.bin"])
     add("t/hlclean.a", fc.ar([("y.o/", 5, 0, 0, 100644, b"ab")]), links=["t/hlclean2.a"])
